@@ -10,7 +10,7 @@ import docgen as D
 from common import Str, sx
 
 ID = 'C01'
-LEAN_MODULES = ['Cellml.Props.C01', 'Cellml.Tie.ConnDir', 'Cellml.Tie.ConnLoop', 'Cellml.Tie.LoaderConsts', 'Cellml.Tie.LoaderSym', 'Cellml.Tie.LoaderRel', 'Cellml.Tie.Misc5', 'Cellml.Tie.LoaderComps', 'Cellml.Tie.LoaderParse', 'Cellml.Tie.ConvertCases', 'Cellml.Tie.ConvertPw', 'Cellml.Tie.Convert', 'Cellml.Tie.Units', 'Cellml.Tie.ConnLoopClosed', 'Cellml.Tie.LoaderUnitsOrder', 'Cellml.Tie.GenBWhile', 'Cellml.Tie.GenBUnitDefs', 'Cellml.Tie.LoaderStagesA', 'Cellml.Tie.LoaderStagesB', 'Cellml.Tie.LoaderStagesC', 'Cellml.Tie.LoaderStagesD', 'Cellml.Tie.MathsWalk', 'Cellml.Tie.LoaderGen', 'Cellml.Tie.NumPipe', 'Cellml.Props.C01Gen', 'Cellml.Tie.AddVars', 'Cellml.Tie.AddVarRef']
+LEAN_MODULES = ['Cellml.Props.C01', 'Cellml.Tie.ConnDir', 'Cellml.Tie.ConnLoop', 'Cellml.Tie.LoaderConsts', 'Cellml.Tie.LoaderSym', 'Cellml.Tie.LoaderRel', 'Cellml.Tie.Misc5', 'Cellml.Tie.LoaderComps', 'Cellml.Tie.LoaderParse', 'Cellml.Tie.ConvertCases', 'Cellml.Tie.ConvertPw', 'Cellml.Tie.Convert', 'Cellml.Tie.Units', 'Cellml.Tie.ConnLoopClosed', 'Cellml.Tie.LoaderUnitsOrder', 'Cellml.Tie.GenBWhile', 'Cellml.Tie.GenBUnitDefs', 'Cellml.Tie.LoaderStagesA', 'Cellml.Tie.LoaderStagesB', 'Cellml.Tie.LoaderStagesC', 'Cellml.Tie.LoaderStagesD', 'Cellml.Tie.MathsWalk', 'Cellml.Tie.LoaderGen', 'Cellml.Tie.NumPipe', 'Cellml.Props.C01Gen', 'Cellml.Tie.AddVars', 'Cellml.Tie.AddVarRef', 'Cellml.Tie.WalkGen']
 N = {'quick': 300, 'thorough': 5000}
 RULE = ('documents from harness/docgen.py: component forests of 1-7 components (depth <= 4), 1-7 signals (constants by '
         'initial_value or equation, algebraic variables, states with ODEs, derivative references on other right-hand '
